@@ -303,6 +303,28 @@ class Built:
     def _allopts(self, s):
         return AllOptions
 
+    def _dc(self, s):
+        from labrea import datasetclass
+
+        names = [n for n, _ in s["members"]]
+        base_n = s.get("base", 0)
+
+        def body(members):
+            ns = {n: self.expr(sp) for n, sp in members}
+            ns["__annotations__"] = {n: object for n, _ in members}
+            return ns
+
+        bases = ()
+        if base_n:
+            base = type(f"Base{s['n']}", (), body(s["members"][:base_n]))
+            bases = (datasetclass(base) if s.get("base_decorated") else base,)
+        cls = datasetclass(type(f"DC{s['n']}", bases, body(s["members"][base_n:])))
+
+        def unpack(instance):
+            return ("dc", tuple((n, realise(getattr(instance, n))) for n in sorted(names)))
+
+        return cls >> unpack
+
     # -- datasets -----------------------------------------------------------
     def _ds(self, s):
         did = str(s["id"])
